@@ -113,12 +113,16 @@ static Res case_gauss(Rng & r)
 static Res case_tsimpr(Rng & r)
 {
   Res res; FamPar f; f.fam = 0; int deg = r.range(0, 3); for (int i = 0; i <= deg; i++) f.coef.push_back(r.uniform(-2, 2));
-  double a = r.uniform(-3, 3); int quads = r.range(1, 60); double h = std::pow(10.0, r.uniform(-3, 0)); double b = a + 4 * quads * h; // (b-a)/h = 4q: the admissible step count of decay0_tsimpr
-  double got = bxdecay0::decay0_tsimpr(fam_f, a, b, h, &f), want = fam_I(f, a, b);
+  double a = r.uniform(-3, 3); int quads = r.range(1, 60); double h = std::pow(10.0, r.uniform(-3, 0)); double b = a + 4 * quads * h; // (b-a)/h = 4q: the documented step count of decay0_tsimpr
+  // the routine also accepts a ratio that is only near 4q (it adds 0.25 and truncates, then integrates over [a,b] with its own step): whenever
+  // it accepts the call, the value it returns is Simpson's sum over [a,b] and must still be exact for cubics; a refusal is fine
+  bool off_grid = r.chance(0.3); if (off_grid) b = a + (4 * quads + r.uniform(-0.2, 1.7)) * h;
+  double got, want = fam_I(f, a, b);
+  try { got = bxdecay0::decay0_tsimpr(fam_f, a, b, h, &f); } catch (std::exception &) { res.nt = "tsimpr|refused-step-count"; res.desc = "tsimpr refused"; return res; }
   double sc = 0; for (size_t i = 0; i < f.coef.size(); i++) sc += std::fabs(f.coef[i]) * std::pow(std::max(std::fabs(a), std::fabs(b)), i) * (b - a);
   char d[160]; snprintf(d, sizeof d, "tsimpr degree %d on [%.5g,%.5g] h=%.4g", deg, a, b, h); res.desc = d;
   if (std::fabs(got - want) > 1e-12 * sc + 1e-300) { res.ok = false; res.cls = "tsimpr-cubic-exactness"; res.msg = res.desc + ": got " + jnum(got) + " want " + jnum(want); }
-  res.nt = "tsimpr|deg" + std::to_string(deg) + "|q" + std::to_string(std::min(quads, 5));
+  res.nt = "tsimpr|deg" + std::to_string(deg) + "|q" + std::to_string(std::min(quads, 5)) + (off_grid ? "|near-4q" : "");
   return res;
 }
 
